@@ -854,14 +854,19 @@ class KVGarbageCollector(BaseGarbageCollector):
                 event_id = key[-32:].hex()
                 to_del.append(event_id)
         # remove all expired events
-        start = INDEXES["tags"].to_key(("expiration", "0"))
-        end = INDEXES["tags"].to_key(("expiration", str(int(time()))))
+        # (the values are compared as numbers: as text, '5' and '1700000000000'
+        # are not ordered like the numbers they denote)
+        now = int(time())
+        start = INDEXES["tags"].to_key(("expiration", ""))
         if cursor.set_range(start):
             for key in cursor.iternext(values=False):
-                if key > end:
+                if not key.startswith(start):
                     break
-                event_id = key[-32:].hex()
-                to_del.append(event_id)
+                # start + value + b"\x00" + created_at + b"\x00" + id
+                value = key[len(start) : -38]
+                if value.isdigit() and int(value) < now:
+                    event_id = key[-32:].hex()
+                    to_del.append(event_id)
 
         cursor.close()
         if to_del:
